@@ -202,7 +202,7 @@ func checkC06(c *Ctx) error {
 		r := c.R.Derive("batch", bi)
 		var cases []*c06Case
 		for len(cases) < 30 {
-			pc := d.draw(r, drawOpts{errPct: 10, noStarF: true, minSent: 2})
+			pc := d.draw(r, drawOpts{errPct: 10, noStarF: true, minSent: 2, clash: true})
 			if pc == nil {
 				break
 			}
@@ -233,6 +233,9 @@ func checkC06(c *Ctx) error {
 					// constraint; both sort after every other Go file
 					cc.Files["zz_ext_test.go"] = "package PKGNAME_test\n\nimport \"testing\"\n\nfunc TestNothing(t *testing.T) {}\n"
 					cc.Files["zzz_tool.go"] = "//go:build ignore\n\npackage main\n\nfunc main() {}\n"
+					// package-level objects of the parser's type that are not parser
+					// types: a variable, a pointer variable, an alias, a constructor
+					cc.Files["more.go"] = "package PKGNAME\n\nvar defaultParser P\nvar parserPtr *P\nvar parserList []P\n\ntype PAlias = P\n\nfunc newP() P { return defaultParser }\n\nvar _ = []any{parserPtr, parserList, PAlias{}, newP}\n"
 				}
 				cc.Intern, cc.Stub = in, st
 				cc.Origin = pc.Origin + "/" + p.Fault
